@@ -82,11 +82,16 @@ def hostile_fetch_bodies():
     out.append(("offset-max", fetch([(T1, [part(0, kproto.encode_message(2 ** 63 - 1, b"k", b"v"))])])))
     out.append(("offset-min", fetch([(T1, [part(0, kproto.encode_message(-2 ** 63, b"k", b"v"))])])))
     # nesting
-    inner = kproto.encode_message(0, None, b"deep")
-    for _ in range(6):
-        inner = kproto.encode_message(0, None, kproto.gzip_compress(inner), attr=1)
-    # (nesting depth >= 2 is left to C18/C02: the real client returns views into a freed buffer there, known finding F13)
-    _ = inner
+    # nesting: a few levels (what the decoder accepts), around its depth limit, and as deep as 64 KiB allow: the decoder recurses
+    # once per level, so the depth a hostile broker can reach is what "overflows the stack" is about
+    for levels in (2, 6, 7, 8, 9):
+        inner = kproto.encode_message(0, None, b"deep")
+        for k in range(levels):
+            inner = kproto.encode_message(0, None, kproto.gzip_compress(inner) if k % 2 else kproto.snappy_xerial_compress(inner),
+                                          attr=1 if k % 2 else 2)
+        out.append(("nested-%d" % levels, fetch([(T1, [part(0, inner)])])))
+    for levels in (1000, 2000):
+        out.append(("nested-%d" % levels, fetch([(T1, [part(0, deep_gzip(levels))])])))
     # inconsistent with the request
     out.append(("unrequested-topic", fetch([(b"zzz", [part(0, b"")])])))
     out.append(("unrequested-partition", fetch([(T1, [part(7, kproto.encode_message(0, None, b"v"))])])))
@@ -95,6 +100,20 @@ def hostile_fetch_bodies():
     out.append(("null-topics", {"topics": None}))
     out.append(("negative-partition", fetch([(T1, [part(-1, b"")])])))
     return out
+
+
+def deep_gzip(levels):
+    """`levels` gzip wrappers inside one another; the inner ones use stored deflate blocks (49 bytes a level), the outermost one
+    compresses them, so that 2000 levels still fit a 64 KiB reply"""
+    import zlib
+
+    def gz(data, level):
+        c = zlib.compressobj(level, zlib.DEFLATED, 31)
+        return c.compress(data) + c.flush()
+    inner = kproto.encode_message(0, None, b"deep")
+    for _ in range(levels - 1):
+        inner = kproto.encode_message(0, None, gz(inner, 0), attr=1)
+    return kproto.encode_message(0, None, gz(inner, 9), attr=1)
 
 
 def hostile_other_bodies():
